@@ -2,6 +2,7 @@ package checks
 
 import (
 	"fmt"
+	"github.com/openziti/storage/ast"
 	"runtime"
 	"strings"
 	"sync"
@@ -250,6 +251,32 @@ func C19(tier string) int {
 									got = append(got, o.id)
 								}
 							}()
+							// the same through a query parsed once and used twice (QueryEntitiesC on a re-used query)
+							if pan == nil && err == nil {
+								func() {
+									defer func() {
+										if r := recover(); r != nil {
+											rep.Violation("C19|object-store-error|QueryEntitiesC|"+c.text, fmt.Sprintf("QueryEntitiesC(%q) on %s panicked: %v", c.text, label, r), map[string]interface{}{"query": c.text, "dataset": label})
+										}
+									}()
+									q, perr := ast.Parse(ost, c.text)
+									if perr != nil {
+										rep.Violation("C19|object-store-error|QueryEntitiesC|"+c.text, fmt.Sprintf("ast.Parse(objectStore, %q) failed although QueryEntities accepted it: %v", c.text, perr), map[string]interface{}{"query": c.text})
+										return
+									}
+									for round := 1; round <= 2; round++ {
+										res, cnt, qerr := ost.QueryEntitiesC(q)
+										var ids []string
+										for _, o := range res {
+											ids = append(ids, o.id)
+										}
+										if qerr != nil || strings.Join(ids, ",") != strings.Join(got, ",") || cnt != count {
+											rep.Violation("C19|object-store-reused-query-differs|"+c.text, fmt.Sprintf("QueryEntitiesC(%q) use #%d on %s = %v count=%d err=%v; QueryEntities gave %v count=%d", c.text, round, label, ids, cnt, qerr, got, count), map[string]interface{}{"query": c.text, "dataset": label})
+											break
+										}
+									}
+								}()
+							}
 							bIds, bCount, bErr := w.people.QueryIds(ctx.Tx(), c.text)
 							switch {
 							case pan != nil || err != nil:
